@@ -41,9 +41,18 @@ def check(prog, rep, tier):
             rep.analysed(f, ctx, len(cpaths(prog, ctx, f)))
             for p in cpaths(prog, ctx, f):
                 for e in p.events:
-                    if not (e.kind == "call" and e.target is None and e.name in ("append", "insert", "extend") and e.recv is not None):
+                    if not (e.kind == "call" and e.target is None and e.name in ("append", "insert", "extend", "__iadd__") and e.recv is not None):
                         continue
-                    b = is_bucket(e.recv)
+                    alts, b = [e.recv], None
+                    while alts and b is None:
+                        r = alts.pop()
+                        if r[0] == "phi":
+                            alts += [r[2], r[3]]  # either object may be the one that grows
+                        else:
+                            b = is_bucket(r)
+                            r_ = strip_epochs(r)
+                            if b is None and r_[0] == "it" and r_[2] == ("f", SELF, TABLE, 0):
+                                b = r_  # a bucket reached by iterating over the table
                     if b is None:
                         continue
                     nsites += 1
